@@ -38,8 +38,10 @@ import traceback
 import ipv8.community as community_mod
 import ipv8.peerdiscovery.discovery as discovery_mod
 from ipv8.community import Community, CommunitySettings
+from ipv8.messaging.interfaces.udp.endpoint import UDPv4Address
 from ipv8.peer import Peer
 from ipv8.peerdiscovery.discovery import RandomWalk
+from ipv8.peerdiscovery.network import Network
 
 from .. import core, fixtures
 from ..ref.c13_nat import NAT_KINDS, NatWorld
@@ -240,7 +242,8 @@ POST_TICKS = 20        # x 0.5 s: the stock walker runs 10 s of virtual time aft
 
 def run_one(cfg: dict, schedule: tuple, seed: int, depth: int, post: bool = False) -> dict:
     """One execution.  Returns violations [(key, what)], avail (in-flight count per main-round step), obs, trace."""
-    cfg = {"style": "old", "k": 1, "pick": 0, "ports": "shift", "warm": "warm", "via": "x-walked", "rewarm": "1", **cfg}
+    cfg = {"style": "old", "k": 1, "pick": 0, "ports": "shift", "warm": "warm", "via": "x-walked", "rewarm": "1",
+           "remap": "none", "start": "fresh", **cfg}
     w = IntroWorld(cfg, seed)
     viol: list = []
     try:
@@ -290,6 +293,14 @@ def run_one(cfg: dict, schedule: tuple, seed: int, depth: int, post: bool = Fals
             if pc is not None:
                 w.call("B", ov_b.get_new_introduction, pc)
                 w.flush()
+        # history: NAT mapping renewed on another port (public node: re-bound), then an ordinary re-announcement to B
+        remapped = {}
+        for name in {"none": (), "C": ("C",), "A": ("A",), "both": ("C", "A")}[cfg["remap"]]:
+            old_addr, _ = w.remap(name)
+            if w.box_of[name] is None:
+                w.ov[name]._my_estimated_lan = None      # a re-opened socket: the library derives its LAN estimate anew
+            again(name)
+            remapped[name] = (old_addr, w.public_address_of(name))
         learnt = {n: tuple(w.ov[n].my_estimated_wan) == w.public_address_of(n) for n in order if n != "D1" or not b_walked}
         b_knows = w.peers_of("B")
         w.expire_sessions(B_ADDR)
@@ -303,12 +314,31 @@ def run_one(cfg: dict, schedule: tuple, seed: int, depth: int, post: bool = Fals
             viol.append(("warmup-failed", f"{cfg}: after the warm-up walks A knows {sorted(w.peers_of('A'))}, B knows "
                          f"{sorted(b_knows)} (expected {order}); drops: {fmt_drops(w, 0)}"))
             return {"viol": viol, "avail": [], "obs": ("warmup-failed",), "trace": []}
+        if cfg["start"] == "snapshot":
+            # A restarted: its address book was loaded from the snapshot of a session in which it was connected to C
+            # (Network.snapshot() stores the preferred address: the LAN address on a shared LAN, else the public one)
+            same = cfg["placement"] == "same"
+            c_addr = tuple(w.nodes["C"].address) if same else w.public_address_of("C")
+            old_book = Network()
+            old_book.add_verified_peer(Peer(w.nodes["C"].my_peer.public_key.key_to_bin(), UDPv4Address(*c_addr)))
+            w.nodes["A"].network.load_snapshot(old_book.snapshot())
+        elif cfg["start"] == "clock":
+            # long-running nodes: the 16-bit request identifier (global time mod 65536) wraps during the round
+            for name in ("A", "C"):
+                w.nodes[name].my_peer.update_clock(65535)
         w.force_pick = cfg["pick"]
         if cold:        # A's very first contact: it does not know its WAN address yet and has no NAT mapping
             w.request_intro("A", B_ADDR, style_of(cfg, "A"))
         else:
             w.call("A", ov_a.get_new_introduction, peer_b)
-        assert len(w.inflight) == 1, w.inflight
+        if len(w.inflight) != 1:
+            # A could not even send its request (seen only on broken trees): whatever was raised is the violation
+            for name, fn, etype, text in w.api_errors:
+                viol.append((f"exception|{fn}|{etype}", f"{name}.{fn} raised: {text}; {cfg}"))
+            for name, etype, text in w.logged:
+                viol.append((f"exception|handler|{etype}", f"{name} logged an exception while handling a packet: {text}; {cfg}"))
+            viol.append(("request-not-sent", f"{cfg}: A's introduction request to B did not leave A ({len(w.inflight)} in flight)"))
+            return {"viol": viol, "avail": [], "obs": ("request-not-sent",), "trace": []}
         w.deliver(0)                              # the request reaches B; B chooses, answers, asks for a puncture
         x = w.introduced
         b_sent = [r for r in w.send_log[n_warm:] if r["from"] == "B"]
@@ -360,7 +390,8 @@ def run_one(cfg: dict, schedule: tuple, seed: int, depth: int, post: bool = Fals
         tx = w.kind_of[x]
         trail = (f"{cfg} introduced={x}({tx}) schedule={list(schedule)}: A walked to {walked}; "
                  f"main-round deliveries: {fmt_deliveries(main_deliv)}; drops: {fmt_drops(w, n_warm)}; "
-                 f"A.wan={tuple(ov_a.my_estimated_wan)} {x}.wan={tuple(w.ov[x].my_estimated_wan)}")
+                 f"A.wan={tuple(ov_a.my_estimated_wan)} {x}.wan={tuple(w.ov[x].my_estimated_wan)}"
+                 + (f"; mappings renewed before the round (old, new): {remapped}" if remapped else ""))
         rewalked: list = []
         second = first
         if punctured_first:
@@ -410,7 +441,8 @@ def run_one(cfg: dict, schedule: tuple, seed: int, depth: int, post: bool = Fals
         reasons = tuple(sorted({r["reason"] for r in w.drop_log if r["phase"] == "main"}))
         learnt["A"] = tuple(ov_a.my_estimated_wan) == w.public_address_of("A")
         obs = (cfg["placement"], cfg["ta"], tx, cfg["style"], punctured_first, first, second, reasons,
-               all(learnt.values()), cfg["warm"], cfg["ports"], cfg["via"], cfg["rewarm"])
+               all(learnt.values()), cfg["warm"], cfg["ports"], cfg["via"], cfg["rewarm"],
+               cfg["remap"], cfg["start"])
         return {"viol": viol, "avail": avail, "obs": obs, "trace": trace, "introduced": x,
                 "offered": len(w.offered or ()), "post": post and second == (True, True), "kept": lost is None}
     finally:
@@ -446,7 +478,8 @@ def base_configs(thorough: bool) -> list[dict]:
                                               ("keep", "warm", (1, 2, 3), (2,)))]
         groups += [(st, "shift", warm, (1, 2), (2,)) for st in ("A-new", "X-new") for warm in ("warm", "cold")]
     else:
-        groups = [(st, "shift", warm, ks, (2,)) for st in ("old", "new") for warm, ks in (("warm", (1, 3)), ("cold", (1,)))]
+        groups = [(st, "shift", warm, ks, kb) for st in ("old", "new")
+                  for warm, ks, kb in (("warm", (1, 3), (2,)), ("cold", (1,), ()))]
     out = []
     for style, ports, warm, ks, kb in groups:
         for placement, ta, tc in pairs:
@@ -474,6 +507,40 @@ def base_configs(thorough: bool) -> list[dict]:
                     if rewarm == "2" and warm == "warm" and style in ("old", "new"):
                         out.append({"placement": placement, "ta": ta, "tc": tc, "style": style, "k": 2, "pick": 0,
                                     "ports": "shift", "warm": warm, "via": "b-walked", "rewarm": rewarm})
+    # history / start-state variants (forced choice = C).  remap: the NAT mapping of C / A / both was renewed on another
+    # public port (public node: re-bound) and the node re-announced itself to B; snapshot: A's address book holds C's
+    # address as a parent-less entry loaded from a snapshot; clock: A's and C's global time is 65535 when the round starts.
+    # quick: the placements in which the kind of the affected node varies; thorough: all 19.
+    def variant(placement, ta, tc, style, k, warm, via, **kw):  # noqa: ANN001, ANN003, ANN202
+        return {"placement": placement, "ta": ta, "tc": tc, "style": style, "k": k, "pick": 0, "ports": "shift",
+                "warm": warm, "via": via, "rewarm": "1", **kw}
+
+    same = [p for p in pairs if p[0] == "same"]
+    vary_c = same + [("diff", "port", t) for t in NAT_KINDS] + [("diff", "none", "none")]
+    vary_a = same + [("diff", t, "port") for t in NAT_KINDS]
+    for style in ("old", "new"):
+        for p in (pairs if thorough else vary_c):
+            for warm, ks in ((("warm", (1, 3)), ("cold", (1,))) if thorough else (("warm", (1,)),)):
+                for k in ks:
+                    out.append(variant(*p, style, k, warm, "x-walked", remap="C"))
+            out.append(variant(*p, style, 2, "warm", "b-walked", remap="C"))
+            if thorough:
+                out.append(variant(*p, style, 1, "warm", "x-walked", remap="C", ports="keep"))
+                out.append(variant(*p, style, 1, "warm", "x-walked", remap="both"))
+        for p in (pairs if thorough else vary_a):
+            for k in ((1, 3) if thorough else (1,)):
+                out.append(variant(*p, style, k, "warm", "x-walked", remap="A"))
+        for p in (pairs if thorough else same + [("diff", "port", "port"), ("diff", "none", "none")]):
+            for warm in ("warm", "cold"):
+                out.append(variant(*p, style, 1, warm, "x-walked", start="snapshot"))
+                if thorough or warm == "warm":
+                    out.append(variant(*p, style, 1, warm, "x-walked", start="clock"))
+            if thorough:
+                out.append(variant(*p, style, 2, "warm", "b-walked", start="snapshot"))
+                out.append(variant(*p, style, 1, "cold", "x-walked", start="snapshot", remap="C"))
+    for c in out:
+        c.setdefault("remap", "none")
+        c.setdefault("start", "fresh")
     return out
 
 
@@ -511,7 +578,7 @@ def explore_configs(chunk: list) -> list:
             if r.get("introduced"):
                 introduced.add(r["introduced"])
                 sigs.add(core.digest((r["obs"][:4], cfg["ports"], cfg["warm"], cfg["via"], cfg["rewarm"],
-                                      r["trace"])))
+                                      cfg.get("remap"), cfg.get("start"), r["trace"])))
                 classes.add(r["obs"])
             if sample is None:
                 sample = {"cfg": cfg, "schedule": list(sched), "introduced": r.get("introduced"),
@@ -526,7 +593,7 @@ def explore_configs(chunk: list) -> list:
 
 
 def _cfg_rank(cfg: dict) -> tuple:
-    return (cfg["rewarm"], cfg["via"] != "x-walked", cfg["k"], cfg["warm"] != "warm", cfg["style"] != "old", cfg["ports"] != "shift", cfg["placement"],
+    return (cfg.get("remap", "none") != "none", cfg.get("start", "fresh") != "fresh", cfg["rewarm"], cfg["via"] != "x-walked", cfg["k"], cfg["warm"] != "warm", cfg["style"] != "old", cfg["ports"] != "shift", cfg["placement"],
             cfg["ta"], cfg["tc"], cfg["pick"])
 
 
@@ -595,7 +662,9 @@ def run(ctx: core.Ctx) -> core.Report:
                    "styles": sorted({c["style"] for c in cfgs}), "candidates": sorted({c["k"] for c in cfgs}),
                    "port_modes": sorted({c["ports"] for c in cfgs}), "requester": sorted({c["warm"] for c in cfgs}),
                    "introducer_learnt_peer_by": sorted({c["via"] for c in cfgs}),
-                   "requests_to_introducer_before_round": sorted({c["rewarm"] for c in cfgs})},
+                   "requests_to_introducer_before_round": sorted({c["rewarm"] for c in cfgs}),
+                   "mapping_renewed_before_round": sorted({c.get("remap", "none") for c in cfgs}),
+                   "requester_start_state": sorted({c.get("start", "fresh") for c in cfgs})},
     }
     return core.Report(LEVEL, cov, violations, [
         "NAT model: endpoint-independent mapping, filtering none/full-cone/address-restricted/port-restricted, LAN "
